@@ -83,7 +83,6 @@ where
     let alphabet = build_alphabet(frequencies);
 
     let mut iter = alphabet.iter().zip(frequencies).enumerate();
-    let mut prev_sym = 0;
 
     while let Some((sym, (&a, f))) = iter.next() {
         if !a {
@@ -93,7 +92,8 @@ where
         // SAFETY: `sym <= ALPHABET_SIZE`.
         write_u8(writer, sym as u8)?;
 
-        if sym > 0 && sym - 1 == prev_sym {
+        // A run length follows a context iff the previous context is also in the table.
+        if sym > 0 && alphabet[sym - 1] {
             let i = sym + 1;
             let len = alphabet[i..].iter().position(|&a| !a).unwrap_or(0);
 
@@ -102,17 +102,14 @@ where
 
             order_0::write_frequencies(writer, f)?;
 
-            for (sym, (_, g)) in iter.by_ref().take(len) {
+            for (_, (_, g)) in iter.by_ref().take(len) {
                 order_0::write_frequencies(writer, g)?;
-                prev_sym = sym;
             }
 
             continue;
         }
 
         order_0::write_frequencies(writer, f)?;
-
-        prev_sym = sym;
     }
 
     write_u8(writer, NUL)?;
